@@ -40,6 +40,7 @@ WITNESSES = [(99.9, 9.96), (-99.97, 9.99), (99.99, 9.9989),          # fixed 679
 
 
 def cases(ctx):
+    yield {"gen": "repo_tests"}
     yield {"gen": "explicit", "pairs": [[float(x).hex(), float(e).hex()] for x, e in WITNESSES]}
     n = ctx.pick(24, 2200)
     for b in range(n):
@@ -121,6 +122,15 @@ def run_case(ctx, case):
     assert getattr(fmt, "__vf_contract__", False)
     before = contracts.EVALS.get("format_number_with_error.in_domain", 0)
 
+    if case["gen"] == "repo_tests":
+        rep = contracts.run_repo_tests_with_contracts(("tests/test_utils.py",))
+        ctx.count("repo_test_contract_evals", rep["evals"].get("format_number_with_error", 0))
+        for rec in rep["records"]:
+            if rec["contract"] == "format_number_with_error":
+                ctx.violation({"gen": "explicit", "pairs": [[rec["witness"]["x"], rec["witness"]["err"]]]}, "repository tests with the contract on: " + rec["msg"],
+                              {"api": "format_number_with_error", "oracle": "reads-back", "site": "repo-tests"})
+        ctx.observe(case, key="repo_tests", nontrivial=True, info={"evals": rep["evals"], "pytest": rep.get("pytest_tail")})
+        return
     if case["gen"] == "explicit":
         pairs = [(float.fromhex(a), float.fromhex(b)) for a, b in case["pairs"]]
     elif case["gen"] == "call_sites":
